@@ -53,6 +53,7 @@ package keyvalue
 //@ interface Store.Get(ctx context.Context, path string) (rec FileRecord, err error)
 //@   deterministic
 //@   detargs self path
+//@   ensures "record" implies(err == nil, rec != nil && srcOK(rec))
 //@ interface Store.Set(ctx context.Context, path string, src FileRecord) (err error)
 //@   deterministic
 //@   detargs self path src
@@ -107,6 +108,7 @@ package keyvalue
 //@                           old(shErr(u, handler, storeGetW(u.store, path), u.nextOp, storeGetRec(u.store, path), nil))))
 //@   ensures "inv" serInv(u) && implies(old(cancelled(u.ctx)), cancelled(u.ctx))
 //@   ensures "get-world" implies(!old(cancelled(u.ctx)), world() == old(storeGetW(u.store, path)))
+//@   ensures "record" implies(!old(cancelled(u.ctx)) && old(storeGetErr(u.store, path)) == nil, u.results[id].Record != nil && srcOK(u.results[id].Record))
 //@   ensures "noop-handler" implies(isType(handler, OpHandlerFunc) && noopfn(payload(handler)), cancelled(u.ctx) == old(cancelled(u.ctx)) &&
 //@                   implies(!old(cancelled(u.ctx)), u.results[id].Err == old(storeGetErr(u.store, path))))
 //@   nopanic
@@ -119,6 +121,7 @@ package keyvalue
 //@   ensures "aborted" implies(cancelled(u.ctx), u.results[id].Record == nil && u.results[id].Err == context.Canceled && world() == old(world()))
 //@   ensures "get" implies(!cancelled(u.ctx), u.results[id].Record == old(storeGetRec(u.store, path)) &&
 //@                   u.results[id].Err == old(storeGetErr(u.store, path)) && world() == old(storeGetW(u.store, path)))
+//@   ensures "record" implies(!cancelled(u.ctx) && u.results[id].Err == nil, u.results[id].Record != nil && srcOK(u.results[id].Record))
 //@   ensures "inv" serInv(u)
 //@   nopanic
 
@@ -759,7 +762,7 @@ package keyvalue
 
 //@ func (fs *FS) getFile(path string) (f *file, err error)
 //@   props C01 C14 C04 C17
-//@   requires fsInv(fs)
+//@   requires fsOK(fs)
 //@   dispatch Transaction *mem.transaction *unsafeSerialTransaction
 //@   modifies world()
 //@   ensures "gate" implies(!VP(path), f == nil && err == hackpadfs.ErrInvalid && world() == old(world()))
@@ -768,7 +771,7 @@ package keyvalue
 //@   ensures "mem-world" implies(isMem(fs), world() == old(world()))
 //@   ensures "serial" implies(VP(path) && isSerial(fs), freshHandle(f, fs, path) && fRec(f).record == old(storeGetRec(fsStore(fs), path)) &&
 //@                      err == old(storeGetErr(fsStore(fs), path)) && world() == old(storeGetW(fsStore(fs), path)))
-//@   ensures "result" implies(err == nil, f != nil)
+//@   ensures "result" implies(err == nil, f != nil && roInv(fRec(f)))
 //@   nopanic
 
 // ---- FS operations (fs.go) ----
@@ -792,5 +795,38 @@ package keyvalue
 //@   ensures "mem-world" implies(isMem(fs), world() == old(world()))
 //@   ensures "serial" [C14] implies(VP(name) && isSerial(fs), iff(err == nil, old(storeGetErr(fsStore(fs), name)) == nil) && world() == old(storeGetW(fsStore(fs), name)) &&
 //@                     implies(err != nil, innerErr(err) == old(storeGetErr(fsStore(fs), name))))
+//@   ensures "inv" fsInv(fs)
+//@   nopanic
+
+//@ spec setAfterGetErr(fs *FS, name string, src FileRecord) := retW("keyvalue.(Store).Set", 0, storeGetW(fsStore(fs), name), fsStore(fs), nil, name, src)
+//@ spec storeGetW2(fs *FS, name string) := worldAfterW("keyvalue.(Store).Get", storeGetW(fsStore(fs), name), fsStore(fs), nil, name)
+
+//@ func (fs *FS) Chmod(name string, mode hackpadfs.FileMode) (err error)
+//@   props C01 C04 C05 C14 C03
+//@   requires fsOK(fs)
+//@   modifies world(), mapOf(ms(fs).records)
+//@   ensures "gate" [C04] implies(!VP(name), pathErr(err, "chmod", name) && errIs(err, hackpadfs.ErrInvalid) && world() == old(world()) && implies(isMem(fs), memSame(fs)))
+//@   ensures "typed" [C05] implies(err != nil, pathErr(err, "chmod", name))
+//@   ensures "mem-miss" implies(VP(name) && isMem(fs) && !kvHas(fs, name), errIs(err, hackpadfs.ErrNotExist) && memSame(fs))
+//@   ensures "mem-hit" [C01] implies(VP(name) && isMem(fs) && kvHas(fs, name), err == nil && kvHas(fs, name) && memSameExcept(fs, name) && isType(kvRec(fs, name), mem.fileRecord) &&
+//@                     memRec(fs, name).mode == (old(memRec(fs, name).mode) & ^chmodBits) | (mode & chmodBits) &&
+//@                     memRec(fs, name).data == old(memRec(fs, name).data) && memRec(fs, name).modTime == old(memRec(fs, name).modTime))
+//@   ensures "mem-world" implies(isMem(fs), world() == old(world()))
+//@   ensures "store-error" [C14] implies(VP(name) && isSerial(fs) && old(storeGetErr(fsStore(fs), name)) != nil, err != nil)
+//@   ensures "inv" fsInv(fs)
+//@   nopanic
+
+//@ func (fs *FS) Chtimes(name string, atime time.Time, mtime time.Time) (err error)
+//@   props C01 C04 C05 C14 C03
+//@   requires fsOK(fs)
+//@   modifies world(), mapOf(ms(fs).records)
+//@   ensures "gate" [C04] implies(!VP(name), pathErr(err, "chtimes", name) && errIs(err, hackpadfs.ErrInvalid) && world() == old(world()) && implies(isMem(fs), memSame(fs)))
+//@   ensures "typed" [C05] implies(err != nil, pathErr(err, "chtimes", name))
+//@   ensures "mem-miss" implies(VP(name) && isMem(fs) && !kvHas(fs, name), errIs(err, hackpadfs.ErrNotExist) && memSame(fs))
+//@   ensures "mem-hit" [C01] implies(VP(name) && isMem(fs) && kvHas(fs, name), err == nil && kvHas(fs, name) && memSameExcept(fs, name) && isType(kvRec(fs, name), mem.fileRecord) &&
+//@                     memRec(fs, name).mode == old(memRec(fs, name).mode) && memRec(fs, name).data == old(memRec(fs, name).data) &&
+//@                     memRec(fs, name).modTime == ite(mtime != 0, mtime, old(memRec(fs, name).modTime)))
+//@   ensures "mem-world" implies(isMem(fs), world() == old(world()))
+//@   ensures "store-error" [C14] implies(VP(name) && isSerial(fs) && old(storeGetErr(fsStore(fs), name)) != nil, err != nil)
 //@   ensures "inv" fsInv(fs)
 //@   nopanic
